@@ -45,6 +45,12 @@ def takeBytes (n : Nat) : Tape → Except Err (Bytes × Tape)
   | .bytes b :: t => if b.length = n then .ok (b, t) else .error .miss
   | _ => .error .miss
 
+/-- the `n`-byte draws of a tape, in order -/
+def drawsLen (n : Nat) (t : Tape) : List Bytes :=
+  t.filterMap fun d => match d with
+    | .bytes b => if b.length = n then some b else none
+    | _ => none
+
 /-- `k` successive `os.urandom(n)` -/
 def takeBytesN (n : Nat) : Nat → Tape → Except Err (List Bytes × Tape)
   | 0, t => .ok ([], t)
